@@ -9,6 +9,9 @@ import Props.C15
 import Props.C16
 import Props.C17
 import Proofs.Startup
+import Props.C13
+import Proofs.FeatureGather
+import Proofs.FeatureGatherOptions
 /-!
 C03 — delta never crashes or hangs, whatever bytes and options it is given.
 
@@ -141,6 +144,79 @@ theorem line_numbers_never_overflow (bufSize a c : Nat) (ks : List LineNumbers.K
     ∃ r, LineNumbers.runUnified bufSize ⟨a, c⟩ ks = .ok r := by
   obtain ⟨rows, h, _⟩ := C05.unified_numbers_true bufSize a c ks ha hc
   exact ⟨_, h⟩
+
+
+/-! ### Gathering the feature list (`src/options/set.rs gather_features_recursively`): terminates on every feature graph
+
+The `features = …` entries of the `[delta "<name>"]` sections of a gitconfig form a graph that is the user's to write:
+self-loops, mutual inclusion, cycles below the top level are all accepted configurations. The walk ends because the
+recursive call stands inside `if !features.contains(&child_feature…)` and the feature is pushed before its children are
+visited; `Generated/FeatureGather.lean` records where these tests stand in the source under check. -/
+
+/-- `recursion_guarded_by_membership`: in the source under check every recursive call of `gather_features_recursively`
+sits inside `if !features.contains(&<the child>…)` within the loop over the section's `features` words, the feature is
+pushed before that loop, and `gather_builtin_features_recursively` returns at once for a feature already in the list. -/
+theorem recursion_guarded_by_membership :
+    Generated.FeatureGather.recursionGuarded = true ∧ Generated.FeatureGather.recursionInChildLoop = true ∧
+    Generated.FeatureGather.pushBeforeRecursion = true ∧
+    Generated.FeatureGather.builtinReturnsEarlyWhenPresent = true := by decide
+
+/-- … and the shape the walk of `DeltaModel/FeatureGather.lean` is run with is the one C13's `Options.gatherR` has
+(unconditional push, guarded descent). -/
+theorem gather_shape_as_modelled : FeatureGather.sourceShape = ⟨false, true⟩ := by decide
+
+/-- `feature_walk_terminates`: with the guard where `recursion_guarded_by_membership` finds it, the walk from any feature
+(new, repeated, unknown) and any list built so far returns — on EVERY feature graph `children` (self-loops, cycles of any
+length, any depth), whatever the builtin gatherer adds (`enterB`, `leave`: they only have to keep what is in the list);
+`U` = the words of all `features` values, and `|U| + 1` levels of recursion are enough. Whether the push is itself
+guarded (`pushGuarded`) does not matter. -/
+theorem feature_walk_terminates (hguard : Generated.FeatureGather.recursionGuarded = true)
+    (builtin : FeatureGather.Name → Bool) (enterB leave : FeatureGather.Name → List FeatureGather.Name → List FeatureGather.Name)
+    (children : FeatureGather.Name → List FeatureGather.Name) (U : List FeatureGather.Name)
+    (hE : ∀ f acc, builtin f = true → f ∈ enterB f acc ∧ ∀ x, x ∈ acc → x ∈ enterB f acc)
+    (hL : ∀ f acc x, x ∈ acc → x ∈ leave f acc) (hU : ∀ f c, c ∈ children f → c ∈ U)
+    (f : FeatureGather.Name) (acc : List FeatureGather.Name) :
+    ∃ r, FeatureGather.walk FeatureGather.sourceShape builtin enterB leave children (U.length + 1) f acc = some r :=
+  let ⟨r, h, _⟩ := FeatureGather.walk_terminates FeatureGather.sourceShape builtin enterB leave children U hE hL hU hguard f acc
+  ⟨r, h⟩
+
+/-- the two-cycle `[delta "a"] features = b` / `[delta "b"] features = a` -/
+def twoCycle : FeatureGather.Name → List FeatureGather.Name := fun f => if f = "a" then ["b"] else ["a"]
+
+example : FeatureGather.walk ⟨false, true⟩ (fun _ => false) (fun _ a => a) (fun _ a => a) twoCycle 3 "a" [] = some ["b", "a"] := by
+  decide
+
+/-- The hypothesis is needed: without the guard on the recursive call (whether or not the push is guarded instead) the walk
+over the two-cycle never returns, whatever the fuel — the stack overflow of a tree whose guard protects only the push. -/
+theorem unguarded_walk_never_returns (pushGuarded : Bool) (n : Nat) (f : FeatureGather.Name) (acc : List FeatureGather.Name) :
+    FeatureGather.walk ⟨pushGuarded, false⟩ (fun _ => false) (fun _ a => a) (fun _ a => a) twoCycle n f acc = none := by
+  induction n generalizing f acc with
+  | zero => rfl
+  | succ n ih =>
+    rw [FeatureGather.walk]
+    by_cases h : f = "a" <;> simp [twoCycle, h, FeatureGather.foldOpt, ih]
+
+/-- `feature_walk_is_gatherR`: the walk of `feature_walk_terminates`, run with the source's shape and the builtin
+gatherers of C13's model (`gatherB`, `gatherFlags`, the `features` words of the git config's sections), returns the list
+C13's `Options.gatherR` returns: the function whose result C13's check compares with the binary's on cyclic graphs. -/
+theorem feature_walk_is_gatherR (hshape : FeatureGather.sourceShape = ⟨false, true⟩) (bs : Options.Builtins)
+    (π : List Options.Name) (fb : Nat) (g : Options.GitCfg) (n : Nat) (f : Options.Name) (acc r : List Options.Name)
+    (h : FeatureGather.walk FeatureGather.sourceShape (fun f => (Options.lookup f bs).isSome) (Options.gatherB bs π fb)
+      (fun f => Options.gatherFlags bs π fb g (some f)) (fun f => Options.secFeatures g (some f)) n f acc = some r) :
+    Options.gatherR bs π fb g n f acc = r := by
+  rw [hshape] at h
+  exact FeatureGather.walk_eq_gatherR bs π fb g n f acc r h
+
+/-- `feature_gathering_terminates`: C13's model of `gather_features` (`Options.gatherFeaturesWith`: fuel-bounded
+`gatherR` / `gatherB`, the functions compared with the binary's `--show-config` on cyclic feature graphs by C13's check)
+never uses up its fuel — any larger fuel gives the same list — for every option set and every git config, cyclic or
+not; C13's `gather_fuel_suffices`, restated here because a walk that does not end is a violation of C03. The model has
+its `contains` test where `recursion_guarded_by_membership` finds the source's. -/
+theorem feature_gathering_terminates (_hguard : Generated.FeatureGather.recursionGuarded = true)
+    (_hshape : FeatureGather.sourceShape = ⟨false, true⟩) (π : List Options.Name) (inp : Options.Inputs) (k : Nat)
+    (hk : Options.fuelFor (Options.builtinsFor inp) (Options.keysOf (Options.builtinsFor inp) π) inp (Options.finalConfig inp) ≤ k) :
+    Options.gatherFeaturesWith k π inp = Options.gatherFeatures π inp :=
+  C13.gather_fuel_suffices π inp k hk
 
 end C03.Components
 
